@@ -111,6 +111,35 @@ func corpus() []*Scenario {
 	sc.Loc.set("fra", sc.Cats[0].UUID, "name", []string{"Rouge"})
 	out = append(out, sc)
 
+	// arguments written with surrounding whitespace are evaluated (template evaluation trims) before the test sees them:
+	// "Yes " matches the input "Yes"; so does the localized " Oui\t"; the same for numbers, patterns and category names
+	sc = base("switch")
+	std(sc, 4)
+	sc.Default, sc.TriggerText = 3, "Yes"
+	cs(sc, "has_only_text", 1, "No ")
+	cs(sc, "has_only_text", 0, "Yes ")
+	out = append(out, sc)
+	sc = base("switch")
+	std(sc, 4)
+	sc.Default, sc.TriggerText = 3, "Oui"
+	sc.ContactLang, sc.Allowed = 2, []int{1, 2}
+	cs(sc, "has_only_text", 0, "Yes")
+	sc.Loc.set("fra", sc.Cases[0].UUID, "arguments", []string{" Oui\t"})
+	out = append(out, sc)
+	sc = base("switch")
+	std(sc, 4)
+	sc.Default, sc.TriggerText = 3, "ab 12"
+	cs(sc, "has_pattern", 1, " ^\\d+$")
+	cs(sc, "has_pattern", 0, "\n^ab \\d+$ ")
+	cs(sc, "has_number_eq", 2, " 12")
+	out = append(out, sc)
+	sc = base("switch")
+	std(sc, 4)
+	sc.Default, sc.TriggerText = 3, "red"
+	cs(sc, "has_only_text", 1, " @(\"blue\") ")
+	cs(sc, "has_only_text", 0, " @(\"red\") ")
+	out = append(out, sc)
+
 	// previous result under the same key with the same value and category: saved again, no event
 	sc = base("switch")
 	std(sc, 4)
